@@ -193,6 +193,9 @@ theorem inv_die {s : St} (h : Inv s) : Inv (die s).1 := by
 
 theorem inv_createPart {s : St} (h : Inv s) (a : Bool) : Inv (createPart s a).1 := by
   unfold createPart
+  simp only
+  split
+  · exact h
   refine ⟨?_, ?_, h.pubs.mono (List.Sublist.refl _) (fun _ => Nat.le_refl _) (Nat.le_succ _),
     h.subs.mono (List.Sublist.refl _) (fun _ => Nat.le_refl _) (Nat.le_succ _),
     h.topics.mono (List.Sublist.refl _) (fun _ => Nat.le_refl _) (Nat.le_succ _),
@@ -233,7 +236,7 @@ theorem inv_createPub {s : St} (h : Inv s) (ph : Nat) (a : Bool) : Inv (createPu
   · rename_i p hp
     simp only
     split
-    · exact inv_die h
+    · exact h
     · refine ⟨h.partsLt, h.partsNd, ?_, h.subs, h.topics, h.writers, h.readers⟩
       have := h.pubs.push p.uid (findPart_lt h hp)
       simpa [pubKey] using this
@@ -245,7 +248,7 @@ theorem inv_createSub {s : St} (h : Inv s) (ph : Nat) (a : Bool) : Inv (createSu
   · rename_i p hp
     simp only
     split
-    · exact inv_die h
+    · exact h
     · refine ⟨h.partsLt, h.partsNd, h.pubs, ?_, h.topics, h.writers, h.readers⟩
       have := h.subs.push p.uid (findPart_lt h hp)
       simpa [subKey] using this
@@ -285,7 +288,7 @@ theorem inv_createTopic {s : St} (h : Inv s) (ph : Nat) (n : String) (k : Bool) 
       · exact h
       · simp only
         split
-        · exact inv_die h
+        · exact h
         · refine ⟨h.partsLt, h.partsNd, h.pubs, h.subs, ?_, h.writers, h.readers⟩
           have := h.topics.push p.uid (findPart_lt h hp)
           simpa [topicKey] using this
@@ -304,7 +307,9 @@ theorem inv_deleteTopic {s : St} (h : Inv s) (via : Nat) (r : TopicRef) : Inv (d
           · exact h
           · split
             · exact h
-            · frame_auto h
+            · split
+              · exact h
+              · frame_auto h
 
 theorem inv_createCft {s : St} (h : Inv s) (r : TopicRef) (n : String) : Inv (createCft s r n).1 := by
   unfold createCft
@@ -314,12 +319,18 @@ theorem inv_createCft {s : St} (h : Inv s) (r : TopicRef) (n : String) : Inv (cr
     · exact h
     · simp only
       split
-      · exact inv_die h
+      · exact h
       · frame_auto h
 
 theorem inv_deleteCft {s : St} (h : Inv s) (ph : Nat) (n : String) : Inv (deleteCft s ph n).1 := by
   unfold deleteCft
-  split <;> exact h
+  split
+  · exact h
+  · split
+    · exact h
+    · split
+      · exact h
+      · frame_auto h
 
 theorem inv_createWriter {s : St} (h : Inv s) (r : GroupRef) (t : String) (m : Option Nat) (c : Bool) :
     Inv (createWriter s r t m c).1 := by
@@ -333,7 +344,7 @@ theorem inv_createWriter {s : St} (h : Inv s) (r : GroupRef) (t : String) (m : O
       · exact h
       · simp only
         split
-        · exact inv_die h
+        · exact h
         · split
           · frame_auto h
           · refine ⟨h.partsLt, h.partsNd, h.pubs, h.subs, h.topics, ?_, h.readers⟩
@@ -364,7 +375,7 @@ theorem inv_createReader {s : St} (h : Inv s) (r : GroupRef) (t : String) (c : B
       · split
         · exact h
         · split
-          · exact inv_die h
+          · exact h
           · refine ⟨h.partsLt, h.partsNd, h.pubs, h.subs, h.topics, h.writers, ?_⟩
             have := h.readers.push p.uid (findPart_lt h hp)
             simpa [readerKey] using this
